@@ -129,6 +129,21 @@ def thing_end(c, k):
     return stmt_end(c, j, stop)
 
 
+def if_body_open(c, k, stop=None):
+    """sig index of the `{` that opens the body of the `if` / `while` at sig index k (struct patterns of `if let` skipped)"""
+    stop = len(c) if stop is None else stop
+    m = k
+    if c.t(m) in ("if", "while") and c.t(m + 1) == "let":
+        m += 2
+        while m < stop and c.t(m) != "=":
+            if c.t(m) in OPEN: m = c.close(m)
+            m += 1
+    while m < stop and c.t(m) != "{":
+        if c.t(m) in OPEN: m = c.close(m)
+        m += 1
+    return m
+
+
 def stmt_end(c, j, stop):
     """end (exclusive) of the expression statement starting at sig index j."""
     x = c.t(j)
@@ -137,15 +152,22 @@ def stmt_end(c, j, stop):
         if x == "{":
             e = c.close(m) + 1
         else:
-            while m < stop and c.t(m) != "{":
-                if c.t(m) in OPEN: m = c.close(m)
-                m += 1
-            e = c.close(m) + 1
-            while c.t(e) == "else":
-                m = e
+            def body_open(m):
+                # `if let PAT = EXPR {` / `while let ..`: braces of a struct PATTERN come before the `=`; the scrutinee cannot
+                # contain a struct literal at its top level, so the body is the first `{` after that `=`
+                if c.t(m) in ("if", "while") and c.t(m + 1) == "let":
+                    m += 2
+                    while m < stop and c.t(m) != "=":
+                        if c.t(m) in OPEN: m = c.close(m)
+                        m += 1
                 while m < stop and c.t(m) != "{":
                     if c.t(m) in OPEN: m = c.close(m)
                     m += 1
+                return m
+            m = body_open(m)
+            e = c.close(m) + 1
+            while c.t(e) == "else":
+                m = body_open(e + 1)
                 e = c.close(m) + 1
         if c.t(e) in (".", "?"):
             pass  # block used as a receiver: fall through to ';' scan
